@@ -39,6 +39,8 @@ STATEMENT_STATUS: Dict[str, str] = {
     "C13_bound_ascii85decode": "proved (round 6): every payload - output <= 4 * input + 16; only ValueError",
     "C13_bound_lzwdecode": "proved (round 6): every payload - output <= (8n+1)(8n+2); only IndexError",
     "C13_resolve_all_calls_cex": "proved counter-example (round 6): total getobj calls of resolve_all are not bounded by the input size - 2047 calls on 10 objects k: [k+1 0 R k+1 0 R], 4095 on 11 (measured alike on the implementation); only the depth bound C13_fuel_resolve_all holds; outside the single-fault domain, recorded as an observation",
+    "C13_family_numtree_partial": "partial (round 6c): for every graph, start value, fuel and STRICT setting the NumberTree._parse walk yields the items, a family error or the out-of-fuel outcome (no builtin error); missing: proof that the depth fuel resolveAllBudget always suffices (checked by the harness on every generated tree)",
+    "C13_numtree_visits_once": "proved (round 6c): the visited set returned by the walk is duplicate free - every indirect node and indirect Kids array is entered at most once, for every graph and fuel",
     "C13_numtree_guard_present": "proved (round 6), presence only: NumberTree._parse tests/grows/hands on its visited set incl. the indirect /Kids array (regenerated); the walk itself is not modelled",
     "C13_bound_predictors": "proved (round 6): PNG and TIFF predictors on arbitrary Colors/Columns/BitsPerComponent and data - output <= input",
     "C13_family_stream_decode": "proved (round 6): PDFStream.decode (model of C03, whole chain with predictors) returns data or raises a PDFException; CCITTFax is out of that model",
